@@ -297,6 +297,37 @@ func c07ObjAliasPrograms() []*Program {
 	return out
 }
 
+// ---- conditions with effects whose operands are of different kinds: evaluated exactly once per test
+
+func c07EffectfulConditions() []*Program {
+	var out []*Program
+	begin := func(st ...Stmt) *Program { return &Program{Items: []any{&Rule{Kind: "BEGIN", Body: &Block{Stmts: st}}}} }
+	q, item, st, n, it, v, i, a := V("q"), V("item"), V("st"), V("n"), V("it"), V("v"), V("i"), V("a")
+	take := func(dst, from Expr, m string) Expr { return &Paren{X: Asg(dst, Meth(from, m))} }
+	for _, m := range []string{"popfirst", "pop"} {
+		for _, cmp := range []struct {
+			op  string
+			rhs Expr
+		}{{"!=", &NullLit{}}, {"!=", S("stop")}, {"<", S("3")}, {"!=", &BoolLit{V: false}}, {">", &NullLit{}}} {
+			out = append(out, begin(asg(q, Arr(N("1"), N("2"), S("two"), &BoolLit{V: true}, N("3"), S("stop"), &BoolLit{V: false}, N("4"))),
+				&While{C: Bin(cmp.op, take(item, q, m), cmp.rhs), Body: Blk(Pr(S("got"), item, jsonOf(q)))}, Pr(S("left"), jsonOf(q), item)))
+			out = append(out, begin(asg(it, Arr(&BoolLit{V: true}, N("0"), S("x"), &NullLit{}, N("5"))),
+				&For{Pre: Asg(i, N("0")), C: Bin(cmp.op, take(v, it, m), cmp.rhs), Post: &IncDec{Op: "++", X: i}, Body: Blk(Pr(S("round"), i, v))}, Pr(S("left"), jsonOf(it), i)))
+		}
+		out = append(out, begin(asg(st, Arr(S("x"), S("y"), N("1"), S("x"))),
+			&If{C: Bin("==", Meth(st, m), S("x")), Then: Blk(Pr(S("x"))), Else: Blk(Pr(S("not x")))}, Pr(jsonOf(st)),
+			&If{C: Bin("==", Meth(st, m), N("1")), Then: Blk(Pr(S("one"))), Else: Blk(Pr(S("else")))}, Pr(jsonOf(st)),
+			&If{C: Bin("<", Meth(st, m), &NullLit{}), Then: Blk(Pr(S("below null"))), Else: &If{C: Bin("!=", Meth(st, m), &BoolLit{V: true}), Then: Blk(Pr(S("else-if")))}}, Pr(jsonOf(st))))
+	}
+	out = append(out, begin(asg(n, N("0")), &While{C: Bin("<", &Paren{X: Asg(n, Bin("+", n, N("1")))}, S("4")), Body: Blk(Pr(n))}, Pr(S("after"), n)))
+	out = append(out, begin(asg(a, Arr(N("3"), &NullLit{}, S("s"), N("1"), N("9"))), asg(i, N("0")), &While{C: Bin("!=", Idx(a, &IncDec{Op: "++", X: i}), N("1")), Body: Blk(Pr(S("loop"), i))}, Pr(S("after"), i)))
+	fn := &Func{Name: "bump", Body: Blk(asg(V("c"), Bin("+", V("c"), N("1"))), Pr(S("bump"), V("c")), &If{C: Bin(">", V("c"), N("3")), Then: Blk(&Return{X: &BoolLit{V: true}})}, &Return{X: V("c")})}
+	p := begin(asg(V("c"), N("0")), &While{C: Bin("!=", CallE(V("bump")), &BoolLit{V: true}), Body: Blk(Pr(S("body"), V("c")))}, Pr(S("after"), V("c")))
+	p.Items = append([]any{fn}, p.Items...)
+	out = append(out, p)
+	return out
+}
+
 // ---- long histories: the signals work the same on the 100000th round as on the first (law on the implementation alone)
 
 type c07Long struct{ name, prog, input, want string }
@@ -476,7 +507,7 @@ func c07ObjOrder(c *Case) {
 }
 
 var c07Chains = c07ChainPrograms()
-var c07Bounds = append(c07BoundPrograms(), c07ObjAliasPrograms()...)
+var c07Bounds = append(append(c07BoundPrograms(), c07ObjAliasPrograms()...), c07EffectfulConditions()...)
 
 func c07Cases(tier string) int {
 	n := len(c07Matrix())*3 + 300 + len(c07Headers())*3 + len(c07Longs()) + len(c07Chains) + len(c07Bounds)
@@ -569,7 +600,7 @@ func c07Run(c *Case) {
 func init() {
 	register(&Prop{
 		ID: "C07", Level: "exploration",
-		Rule:          "enumerated: 5 signals (break continue return next exit) x 5 loop kinds x {inner, outer loop of a 2-nest} x {before, after the trace print} x 3 guard positions, inside a function called from the first of two pattern rules over a 2-element input; 300 object-order cases (2-12 keys: every key once, identical order in two iterations and 8 runs); 5 signals raised from inside a loop header (for initialiser / condition / post-expression, while condition, for-in iterable, through a match block) x 3 enclosing loop kinds x 3 guard positions: the header is not inside its own loop; 11 long histories (70000-150000 rounds of continue / break / return / next, also from match blocks and from a called function, results known in closed form): the hundred-thousandth signal works like the first; 164 else-if chains of 2-5 conditions that count their own evaluations (every combination of thresholds 0/1/2/3/100, with and without braces, two passes): each condition evaluated at most once per pass, in order; 72 loops (for, while, bound on the left) whose bound is a variable changed by the body, the post-expression or a called function (shrinking, growing, zeroed): the condition is evaluated afresh before every round; 28 programs that iterate an object, give it a new key through another reference (second name, parameter, returned reference, member, element, loop variable) and iterate it again: every key exactly once each time; sampled: structured programs (if/else incl. brace-less and dangling else, while, 3-clause for, for-in over arrays/strings/objects, nesting <= 5, guarded signals, functions) whose stdout trace is compared line by line with the reference model. Non-trivial = trace of >= 5 lines and at least one signal executed (counted in the model's execution); distinct by program text.",
+		Rule:          "enumerated: 5 signals (break continue return next exit) x 5 loop kinds x {inner, outer loop of a 2-nest} x {before, after the trace print} x 3 guard positions, inside a function called from the first of two pattern rules over a 2-element input; 300 object-order cases (2-12 keys: every key once, identical order in two iterations and 8 runs); 5 signals raised from inside a loop header (for initialiser / condition / post-expression, while condition, for-in iterable, through a match block) x 3 enclosing loop kinds x 3 guard positions: the header is not inside its own loop; 11 long histories (70000-150000 rounds of continue / break / return / next, also from match blocks and from a called function, results known in closed form): the hundred-thousandth signal works like the first; 164 else-if chains of 2-5 conditions that count their own evaluations (every combination of thresholds 0/1/2/3/100, with and without braces, two passes): each condition evaluated at most once per pass, in order; 72 loops (for, while, bound on the left) whose bound is a variable changed by the body, the post-expression or a called function (shrinking, growing, zeroed): the condition is evaluated afresh before every round; 25 loops and ifs whose condition takes an element off a queue / increments a counter and compares it with a value of another kind (null, string, boolean): the condition is evaluated exactly once per test; 28 programs that iterate an object, give it a new key through another reference (second name, parameter, returned reference, member, element, loop variable) and iterate it again: every key exactly once each time; sampled: structured programs (if/else incl. brace-less and dangling else, while, 3-clause for, for-in over arrays/strings/objects, nesting <= 5, guarded signals, functions) whose stdout trace is compared line by line with the reference model. Non-trivial = trace of >= 5 lines and at least one signal executed (counted in the model's execution); distinct by program text.",
 		NumCases:      c07Cases,
 		Run:           c07Run,
 		MinConclusive: func(tier string) int { return 3000 },
